@@ -881,3 +881,39 @@ func init() {
 		return tuple{n, iface{}}
 	}
 }
+
+// ---- TLS configuration (C30): file I/O and crypto are outside the claim
+
+func init() {
+	externals["crypto/tls.LoadX509KeyPair"] = func(fr *frame, args []value) value {
+		i := fr.i
+		// a fresh certificate identity on every load: Certificate = [][]byte{{n}}
+		n, _ := i.path.fs["certloads"].(int)
+		n++
+		i.path.fs["certloads"] = n
+		ct := fr.fn.Signature.Results().At(0).Type()
+		c := zero(ct).(structure)
+		c[0] = []value{[]value{byte(n)}}
+		if p, _ := args[0].(string); p == "missing.pem" {
+			return tuple{zero(ct), i.newError("open missing.pem: no such file or directory")}
+		}
+		return tuple{c, iface{}}
+	}
+	externals["os.Stat"] = func(fr *frame, args []value) value {
+		if p, _ := args[0].(string); p == "missing.pem" {
+			return tuple{iface{}, fr.i.newError("stat missing.pem: no such file or directory")}
+		}
+		return tuple{iface{}, iface{}}
+	}
+	externals["os.ReadFile"] = func(fr *frame, args []value) value {
+		if p, _ := args[0].(string); p == "missing.pem" {
+			return tuple{[]value(nil), fr.i.newError("open missing.pem: no such file or directory")}
+		}
+		return tuple{[]value{byte('P'), byte('E'), byte('M')}, iface{}}
+	}
+	externals["crypto/x509.NewCertPool"] = func(fr *frame, args []value) value {
+		v := zero(mustDeref(fr.fn.Signature.Results().At(0).Type()))
+		return &v
+	}
+	externals["(*crypto/x509.CertPool).AppendCertsFromPEM"] = func(fr *frame, args []value) value { return true }
+}
